@@ -115,6 +115,10 @@ class MindsDBParser(Parser):
         model = params.pop('model', None)
         storage = params.pop('storage', None)
 
+        for key, value in (('storage', storage), ('model', model)):
+            if isinstance(value, str) and value == '':
+                raise ParsingException(f"CREATE KNOWLEDGE_BASE: parameter '{key}' must be a name")
+
         if isinstance(storage, str):
             # convert to identifier
             storage = Identifier(storage)
